@@ -929,3 +929,7 @@ NOT_PROVED = list(NOT_PROVED) + ['the one-step forecast IS bounded by theorem in
 PROOF_MODULES = PROOF_MODULES + [m for m in ['Compute.Lemmas.Rounding6', 'Compute.Props.Rounding6'] if m not in PROOF_MODULES]
 REQUIRED_THEOREMS = REQUIRED_THEOREMS + ['Cv.Rounding6.yuleWalker_residual', 'Cv.Rounding6.invertMatrix_residual']
 NOT_PROVED = list(NOT_PROVED) + ['the Yule-Walker solve IS bounded end to end as a residual of the Toeplitz system of the computed autocorrelations (Props/Rounding6 yuleWalker_residual: gamma_(3p+1) W Z + gamma_(p+1) |R| Z); its propagation to the coefficients (cond(R)) is oracle only']
+
+# --- source tie (translator pass 5: AR::predict_one / predict_one_centred incl. the short-history branch, Generated/SrcC13Mut.lean, Props/SrcTieC13Mut.lean)
+from . import srctie
+srctie.wire_mut(globals(), 'C13')
